@@ -19,11 +19,11 @@ TLoadable == [d \in {"d1"} |-> <<"d1/a">>]
 TIgnored == [d \in {"d1"} |-> {}]
 NoDep == [name |-> "", body |-> None]
 TDefaults ==
-  CASE Variant = "plain"   -> << [name |-> "n", body |-> RolesB({"dflt"}), dep |-> NoDep] >>
-    [] Variant = "renamed" -> << [name |-> "n", body |-> RolesB({"dflt"}), dep |-> [name |-> "o", body |-> RolesB({"old"})]] >>
-    [] Variant = "same"    -> << [name |-> "n", body |-> RolesB({"dflt"}), dep |-> [name |-> "n", body |-> RolesB({"old"})]] >>
-    [] Variant = "split"   -> << [name |-> "n", body |-> RolesB({"dflt"}), dep |-> [name |-> "o", body |-> RolesB({"old"})]],
-                                 [name |-> "n2", body |-> RolesB({"old"}), dep |-> [name |-> "o", body |-> RolesB({"old"})]] >>
+  CASE Variant = "plain"   -> << [name |-> "n", body |-> RolesB({"dflt"}), dep |-> NoDep, removal |-> 0] >>
+    [] Variant = "renamed" -> << [name |-> "n", body |-> RolesB({"dflt"}), dep |-> [name |-> "o", body |-> RolesB({"old"})], removal |-> 0] >>
+    [] Variant = "same"    -> << [name |-> "n", body |-> RolesB({"dflt"}), dep |-> [name |-> "n", body |-> RolesB({"old"})], removal |-> 0] >>
+    [] Variant = "split"   -> << [name |-> "n", body |-> RolesB({"dflt"}), dep |-> [name |-> "o", body |-> RolesB({"old"})], removal |-> 0],
+                                 [name |-> "n2", body |-> RolesB({"old"}), dep |-> [name |-> "o", body |-> RolesB({"old"})], removal |-> 0] >>
 
 VARIABLES main, dfile, ph, fails
 vars == <<main, dfile, ph, fails>>
